@@ -33,6 +33,10 @@ struct Shared {
     random: Option<(Rng, u64, u64)>, // rng, p_fail per 1000, p_interrupt per 1000
     burst: u32,
     next_id: u64,
+    /// Some(terminator): a failing attempt whose bytes end with the terminator (= a write of buffered lines; the
+    /// metrics of such a history never end with it) is answered with Ok(0) - "nothing taken" - instead of an error
+    zero_term: Option<Vec<u8>>,
+    cap: usize,
 }
 
 #[derive(Clone)]
@@ -74,6 +78,15 @@ impl Write for ScriptedWriter {
             _ => AOut::Interrupted(id),
         };
         s.attempts.push(Attempt { bytes: Some(buf.to_vec()), out: out.clone() });
+        if let (AOut::Failed(id), Some(t)) = (&out, &s.zero_term) {
+            // (only for writes the BufWriter makes from its buffer - shorter than the capacity; a piece as large as
+            // the whole buffer is handed through by std without the Ok(0) -> WriteZero conversion, and a "socket" that
+            // answers a datagram with Ok(0) is outside the all-or-nothing fault model)
+            if !t.is_empty() && buf.ends_with(t) && buf.len() < s.cap && id % 2 == 0 {
+                // a writer that takes nothing says so with Ok(0): all-or-nothing, and this time nothing
+                return Ok(0);
+            }
+        }
         match out {
             AOut::Ok => Ok(buf.len()),
             AOut::Failed(id) => {
@@ -105,6 +118,10 @@ fn err_id(e: &io::Error) -> Option<u64> {
 #[derive(Clone, Debug)]
 enum POp {
     Emit(Vec<u8>),
+    /// the same through `Write::write_all`
+    EmitAll(Vec<u8>),
+    /// `Write::write_vectored` with these slices
+    EmitVectored(Vec<Vec<u8>>),
     Flush,
 }
 
@@ -115,7 +132,11 @@ struct RunResult {
 
 /// Execute a history on the real MultiLineWriter over a scripted writer.
 fn run_w1(cap: usize, term: &str, ops: &[POp], choices: &[u8], random: Option<(Rng, u64, u64)>, max_scripted: usize) -> RunResult {
-    let shared = Rc::new(RefCell::new(Shared { attempts: Vec::new(), choices: choices.to_vec(), n: 0, random, burst: 0, next_id: 0 }));
+    run_w1z(cap, term, ops, choices, random, max_scripted, false)
+}
+
+fn run_w1z(cap: usize, term: &str, ops: &[POp], choices: &[u8], random: Option<(Rng, u64, u64)>, max_scripted: usize, zero: bool) -> RunResult {
+    let shared = Rc::new(RefCell::new(Shared { attempts: Vec::new(), choices: choices.to_vec(), n: 0, random, burst: 0, next_id: 0, zero_term: if zero { Some(term.as_bytes().to_vec()) } else { None }, cap }));
     let _ = max_scripted;
     let mut steps = Vec::new();
     let made = panics::guard(|| MultiLineWriter::with_ending(ScriptedWriter(shared.clone()), cap, term));
@@ -139,6 +160,33 @@ fn run_w1(cap: usize, term: &str, ops: &[POp], choices: &[u8], random: Option<(R
                             Err(p) => Res::Panicked(p),
                         },
                     )
+                }
+                POp::EmitAll(m) => {
+                    let r = panics::guard(|| wr.write_all(m));
+                    (
+                        // (std's write_all never calls write for an empty buffer: that is no line at all, and no reason to write)
+                        if m.is_empty() { Op::Query } else { Op::Emit(m.clone()) },
+                        match r {
+                            Ok(Ok(())) => if m.is_empty() { Res::OkUnit } else { Res::OkN(m.len()) },
+                            Ok(Err(e)) => Res::Err(err_id(&e)),
+                            Err(p) => Res::Panicked(p),
+                        },
+                    )
+                }
+                POp::EmitVectored(slices) => {
+                    let ios: Vec<io::IoSlice> = slices.iter().map(|s| io::IoSlice::new(s)).collect();
+                    let r = panics::guard(|| wr.write_vectored(&ios));
+                    // two readings are legitimate: the trait's default (the first non-empty slice is the value, the
+                    // caller comes back with the rest) and "the slices together are the value"; the count returned
+                    // says which one was taken
+                    let first: Vec<u8> = slices.iter().find(|s| !s.is_empty()).cloned().unwrap_or_default();
+                    let all: Vec<u8> = slices.concat();
+                    match r {
+                        Ok(Ok(n)) if n == all.len() && n != first.len() => (Op::Emit(all), Res::OkN(n)),
+                        Ok(Ok(n)) => (Op::Emit(first), Res::OkN(n)),
+                        Ok(Err(e)) => (Op::Emit(first), Res::Err(err_id(&e))),
+                        Err(p) => (Op::Emit(first), Res::Panicked(p)),
+                    }
                 }
                 POp::Flush => {
                     let r = panics::guard(|| wr.flush());
@@ -301,7 +349,7 @@ fn metric_bytes(idx: usize, len: usize) -> Vec<u8> {
 }
 
 fn ops_to_string(ops: &[POp]) -> String {
-    ops.iter().map(|o| match o { POp::Emit(m) => format!("e{}", m.len()), POp::Flush => "f".to_string() }).collect::<Vec<_>>().join(",")
+    ops.iter().map(|o| match o { POp::Emit(m) => format!("e{}", m.len()), POp::EmitAll(m) => format!("a{}", m.len()), POp::EmitVectored(v) => format!("v{}", v.iter().map(|x| x.len().to_string()).collect::<Vec<_>>().join("+")), POp::Flush => "f".to_string() }).collect::<Vec<_>>().join(",")
 }
 
 fn ops_from_string(s: &str) -> Vec<POp> {
@@ -507,6 +555,10 @@ fn random_case(j: &mut Judge, r: &mut Rng, faults: bool, replay: Vec<(&str, Stri
     } as usize;
     let mut ops = Vec::with_capacity(nops);
     let mut fill_hint = 0usize;
+    // a fifth of the fault histories: the wrapped writer answers some refused writes of buffered lines with Ok(0)
+    // (metrics of such a history never end with the terminator, so that a write of lines is recognisable)
+    let zero = faults && !term.is_empty() && r.chance(1, 5);
+    let api_variety = r.chance(1, 4);
     for k in 0..nops {
         if r.chance(1, 9) {
             ops.push(POp::Flush);
@@ -524,7 +576,27 @@ fn random_case(j: &mut Judge, r: &mut Rng, faults: bool, replay: Vec<(&str, Stri
                 fill_hint += req;
             }
             let m = unique_metric(k, len);
-            ops.push(POp::Emit(with_terminator_inside(r, m, term.as_bytes())));
+            // (in these histories a metric never looks like a line: write_all retries an interrupted direct write by
+            // itself, and two attempts in one call must not be mistaken for a write of the buffered lines)
+            let m = if zero || api_variety { m } else { with_terminator_inside(r, m, term.as_bytes()) };
+            // the writer is a `Write`: its other methods are part of the public surface too
+            ops.push(match if api_variety { r.below(8) } else { 0 } {
+                5 if m.len() >= 8 || m.is_empty() => POp::EmitAll(m),
+                6 | 7 if !zero => {
+                    // cut the value into 2-3 slices (some empty), or pass it as the only slice
+                    let mut cuts: Vec<usize> = (0..r.below(3)).map(|_| r.usize_below(m.len() + 1)).collect();
+                    cuts.sort();
+                    let mut slices = Vec::new();
+                    let mut at = 0;
+                    for c in cuts {
+                        slices.push(m[at..c].to_vec());
+                        at = c;
+                    }
+                    slices.push(m[at..].to_vec());
+                    POp::EmitVectored(slices)
+                }
+                _ => POp::Emit(m),
+            });
         }
     }
     let random = if faults {
@@ -534,7 +606,13 @@ fn random_case(j: &mut Judge, r: &mut Rng, faults: bool, replay: Vec<(&str, Stri
     } else {
         None
     };
-    let rr = run_w1(cap, term, &ops, &[], random, 0);
+    if zero {
+        j.rep.obs("histories_with_a_writer_that_answers_ok_0", 1);
+    }
+    if api_variety {
+        j.rep.obs("histories_using_write_all_and_write_vectored", 1);
+    }
+    let rr = run_w1z(cap, term, &ops, &[], random, 0, zero);
     j.judge(cap, term, &rr.steps, replay, "W1");
 }
 
